@@ -80,6 +80,10 @@ var c14Scenarios = [][]c14Op{
 	// megabyte: the diff of two long texts), twice, or next to an inexact query on short texts
 	{{"NM", "@E0X", ""}, {"NM", "@E0X", ""}},
 	{{"NM", "@E0X", ""}, {"NM", "the quick brown fix", ""}, {"NM", "lazy dog jumped", ""}},
+	// scenario 23 (values=1;valuebytes=4600;reprobe=yes): two MultipleMatch calls that both need the
+	// search set of a registered value of 4.6 KB, while a further value is added; every query is asked
+	// again after the join (bookkeeping of what is still to be built)
+	{{"MM", "@E0", ""}, {"MM", "@E0", ""}, {"ADD", "over the moon", "K3"}},
 }
 
 // c14InvalidFirst (scenarios 15/16): an invalid-UTF-8 value is registered while the classifier is built.
